@@ -27,8 +27,9 @@ type half struct {
 	cond   *sync.Cond
 	data   []byte
 	msgs   [][]byte
-	closed bool // writer side closed: EOF after draining
-	broken bool // reader side gone / reset: immediate error for both ends
+	fly    [][]byte // message mode with Hold: written but not yet delivered ("in the network")
+	closed bool     // writer side closed: EOF after draining
+	broken bool     // reader side gone / reset: immediate error for both ends
 }
 
 func newHalf() *half {
@@ -41,6 +42,7 @@ type Conn struct {
 	Name      string
 	r, w      *half
 	Message   bool // one Write is delivered by exactly one Read
+	Hold      bool // message mode: writes stay in flight until Deliver() hands them to the peer's reader
 	Segment   bool // stream mode: each Read returns a symbolic count in 1..min(len(p), available)
 	MaxChunks int  // number of Reads that may return a short count (later Reads return all that is available)
 	chunks    int
@@ -130,12 +132,35 @@ func (c *Conn) Write(p []byte) (int, error) {
 	c.Writes = append(c.Writes, cp)
 	c.WriteClock = append(c.WriteClock, vapi.Clock())
 	if c.Message {
+		if c.Hold {
+			h.fly = append(h.fly, cp)
+			return len(p), nil
+		}
 		h.msgs = append(h.msgs, cp)
 	} else {
 		h.data = append(h.data, cp...)
 	}
 	h.cond.Broadcast()
 	return len(p), nil
+}
+
+// InFlight is the number of messages written on this end and not yet delivered to the peer.
+func (c *Conn) InFlight() int {
+	c.w.mu.Lock()
+	defer c.w.mu.Unlock()
+	return len(c.w.fly)
+}
+
+// Deliver hands the oldest in-flight message of this end to the peer's reader (per-connection FIFO, as TCP).
+func (c *Conn) Deliver() {
+	h := c.w
+	h.mu.Lock()
+	if len(h.fly) > 0 {
+		h.msgs = append(h.msgs, h.fly[0])
+		h.fly = h.fly[1:]
+		h.cond.Broadcast()
+	}
+	h.mu.Unlock()
 }
 
 // Close closes this end: the peer reads EOF after draining, local reads and writes fail, peer writes fail.
@@ -164,6 +189,7 @@ func (c *Conn) Reset() {
 		h.broken = true
 		h.data = nil
 		h.msgs = nil
+		h.fly = nil
 		h.cond.Broadcast()
 		h.mu.Unlock()
 	}
